@@ -96,6 +96,7 @@ def run(ck, tier):
     arms.check(ck, F, "C03.arm-uniform", tab)
     nullguard.check(ck, F, "C03.null-guarded-access", [f for f in nullguard.load_table() if f.startswith("arrow_select::")], 4)
     pairs.check_cross(ck, F, "C03.bitcopy-offset-slots", ["arrow_select", "arrow_data"], 2)
+    pairs.check_threshold(ck, F, "C03.inline-view-threshold", ["arrow_select", "arrow_data", "arrow_array"], 15)
     ck.note("Decided: routing totality of 9 selection / construction dispatch tables over all 41 DataType constructors, arm uniformity of slicing parameters. "
             "Not decided: that exactly the selected rows are moved, coalescer batch sizes (value / history level).")
     return F.info
